@@ -150,11 +150,13 @@ func verifSpecHandledSelect(current Identifier, qualified bool, qualifier Identi
 //@   modifies l.p, l.id, l.$ts
 
 //@ loop parser.parseSelector #1
-//@   invariant inv(l) && l.data == old(l.data) && l.pe == old(l.pe) && l.p >= old(l.p)
+//@   invariant inv(l) && l.data == old(l.data) && l.pe == old(l.pe) && l.p >= old(l.p) && tokcur(l, t)
 //@   invariant args == nil || fresh(args)
 
 //@ func parser.parseSelector
 //@   requires l != nil && inv(l)
+//@   requires tok-current: tokcur(l, t)
+//@   ensures err == nil ==> tokcur(l, next)
 //@   ensures inv(l) && l.data == old(l.data) && l.pe == old(l.pe)
 //@   ensures err == nil ==> l.p >= old(l.p)
 //@   modifies l.p, l.id, l.m, l.mid, l.$ts, l.$mts
@@ -166,7 +168,7 @@ func verifSpecHandledSelect(current Identifier, qualified bool, qualifier Identi
 //@ ghostvar $selTable Identifier
 
 //@ loop parser.isHandledSelectStmt #1
-//@   invariant inv(l) && l.data == old(l.data) && l.pe == old(l.pe) && selectStmt != nil && fresh(selectStmt)
+//@   invariant inv(l) && l.data == old(l.data) && l.pe == old(l.pe) && selectStmt != nil && fresh(selectStmt) && tokcur(l, t)
 //@   invariant selectStmt.Selectors == nil || fresh(selectStmt.Selectors)
 
 // isHandledSelectStmt: the decision equals the property's sentence, evaluated on the qualifier and
@@ -245,8 +247,12 @@ func verifSpecNonIdempotentFunc(name Identifier) bool { return name.equal("uuid"
 //@   modifies nothing
 
 // "delete-by-index": an integer literal, a bind marker, a function call or a cast may be a list index.
+func verifSpecListIndexLike(typ termType) bool {
+	return typ == termIntegerLiteral || typ == termBindMarker || typ == termFunctionCall || typ == termCast
+}
+
 //@ func parser.isIdempotentDeleteElementTermType [C06]
-//@   ensures result == !(typ == termIntegerLiteral || typ == termBindMarker || typ == termFunctionCall || typ == termCast)
+//@   ensures result == !verifSpecListIndexLike(typ)
 //@   modifies nothing
 
 //@ loop parser.parseIdentifiers #1
@@ -533,10 +539,11 @@ func verifSpecNonIdempotentFunc(name Identifier) bool { return name.equal("uuid"
 //@   requires l != nil && inv(l)
 //@   after parser.parseTerm#* set $sawNI = $sawNI || !result0
 //@   after parser.parseWhereClause#* set $sawNI = $sawNI || !result0
-//@   after parser.isIdempotentDeleteElementTermType#* set $delBadIndex = $delBadIndex || !result
+//@   after parser.parseTerm#* set $delBadIndex = $delBadIndex || (result0 && verifSpecListIndexLike(result1))
 //@   ensures inv(l) && l.data == old(l.data) && l.pe == old(l.pe)
 //@   ensures error-not-idempotent: err != nil ==> !idempotent
 //@   ensures propagation: idempotent ==> !$sawNI
+// every col[term] operation of the statement (the only terms this function parses itself) was checked
 //@   ensures delete-by-index: idempotent ==> !$delBadIndex
 //@   ensures ends-at-terminator: idempotent ==> t == tkEOF || t == tkEOS || t == tkInsert || t == tkUpdate || t == tkDelete || t == tkApply
 //@   modifies l.p, l.id, l.m, l.mid, l.$ts, l.$mts
